@@ -67,7 +67,8 @@ def check_handbuilt(case):
         # times far from 0 and not float32-exact: references use the float32-rounded (start, end, duration) triple
         sh = case["shift"]
         cont = case["continuum"]
-        case = dict(case, continuum=dict(cont, units=[[a, s + sh, e + sh, l] for a, s, e, l in cont["units"]]))
+        f = 1.000123      # non-dyadic stretch: durations are then no multiples of the float32 spacing at that magnitude
+        case = dict(case, continuum=dict(cont, units=[[a, s * f + sh, e * f + sh, l] for a, s, e, l in cont["units"]]))
         with oracle.scale_floor(case["dissim"]["delta"]), oracle.f32_inputs():
             info = _check_handbuilt(case)
         info["classes"] = list(info["classes"]) + ["large-inexact-times"]
